@@ -61,7 +61,93 @@ enum Entry {
 
 const NAMES: [&str; 8] = ["length", "abs", "type", "not_null", "f", "g", "rec", "Length"];
 
+/// Harness-side description of an argument type (independent of the crate's validator).
+#[derive(Clone, Debug)]
+enum Spec {
+    Any,
+    Null,
+    Str,
+    Num,
+    Bool,
+    Obj,
+    Arr,
+    Expref,
+    Typed(Box<Spec>),
+    Union(Vec<Spec>),
+}
+
+impl Spec {
+    fn to_crate(&self) -> ArgumentType {
+        match self {
+            Spec::Any => ArgumentType::Any,
+            Spec::Null => ArgumentType::Null,
+            Spec::Str => ArgumentType::String,
+            Spec::Num => ArgumentType::Number,
+            Spec::Bool => ArgumentType::Bool,
+            Spec::Obj => ArgumentType::Object,
+            Spec::Arr => ArgumentType::Array,
+            Spec::Expref => ArgumentType::Expref,
+            Spec::Typed(t) => ArgumentType::TypedArray(Box::new(t.to_crate())),
+            Spec::Union(ts) => ArgumentType::Union(ts.iter().map(|t| t.to_crate()).collect()),
+        }
+    }
+    /// Some(accepted) or None when the specification does not say (Any meets an expref).
+    fn accepts(&self, a: &Arg) -> Option<bool> {
+        match (self, a) {
+            (Spec::Any, Arg::Expref(_)) => None,
+            (Spec::Any, _) => Some(true),
+            (Spec::Expref, Arg::Expref(_)) => Some(true),
+            (Spec::Union(ts), a) => {
+                let rs: Vec<Option<bool>> = ts.iter().map(|t| t.accepts(a)).collect();
+                if rs.iter().any(|r| *r == Some(true)) {
+                    Some(true)
+                } else if rs.iter().any(|r| r.is_none()) {
+                    None
+                } else {
+                    Some(false)
+                }
+            }
+            (_, Arg::Expref(_)) => Some(false),
+            (s, Arg::Val(v)) => Some(match (s, v) {
+                (Spec::Null, Value::Null) => true,
+                (Spec::Str, Value::String(_)) => true,
+                (Spec::Num, Value::Number(_)) => true,
+                (Spec::Bool, Value::Bool(_)) => true,
+                (Spec::Obj, Value::Object(_)) => true,
+                (Spec::Arr, Value::Array(_)) => true,
+                (Spec::Typed(t), Value::Array(xs)) => {
+                    let mut all = true;
+                    for x in xs {
+                        match t.accepts(&Arg::Val(x.clone())) {
+                            Some(true) => {}
+                            _ => all = false,
+                        }
+                    }
+                    all
+                }
+                _ => false,
+            }),
+        }
+    }
+}
+
+fn rich_signature(k: usize) -> (Vec<Spec>, Option<Spec>) {
+    let typed = |s: Spec| Spec::Typed(Box::new(s));
+    match k {
+        4 => (vec![typed(typed(Spec::Num))], None),
+        5 => (vec![typed(Spec::Union(vec![Spec::Str, typed(Spec::Num)]))], None),
+        6 => (vec![Spec::Str], Some(Spec::Num)),
+        7 => (vec![Spec::Union(vec![Spec::Null, Spec::Bool]), Spec::Arr], Some(Spec::Union(vec![Spec::Str, Spec::Expref]))),
+        8 => (vec![typed(Spec::Obj), Spec::Union(vec![Spec::Num, typed(Spec::Str)])], None),
+        _ => (vec![typed(typed(Spec::Union(vec![Spec::Num, Spec::Str]))), Spec::Bool], Some(typed(Spec::Bool))),
+    }
+}
+
 fn signature(k: usize) -> (Signature, Vec<T>, Option<T>) {
+    if k >= 4 {
+        let (ps, v) = rich_signature(k);
+        return (Signature::new(ps.iter().map(|p| p.to_crate()).collect(), v.map(|x| x.to_crate())), vec![], None);
+    }
     match k {
         0 => (Signature::new(vec![ArgumentType::Number], None), vec![T::Number], None),
         1 => (Signature::new(vec![ArgumentType::String, ArgumentType::Array], None), vec![T::String, T::Array], None),
@@ -72,6 +158,23 @@ fn signature(k: usize) -> (Signature, Vec<T>, Option<T>) {
 
 /// Independent signature decision: Ok(()) accepted, Err(class).
 fn model_signature(k: usize, args: &[Arg]) -> Result<(), &'static str> {
+    if k >= 4 {
+        let (ps, v) = rich_signature(k);
+        let n = ps.len();
+        let arity_ok = if v.is_some() { args.len() >= n } else { args.len() == n };
+        if !arity_ok {
+            return Err("arity");
+        }
+        for (i, a) in args.iter().enumerate() {
+            let t = if i < n { &ps[i] } else { v.as_ref().unwrap() };
+            match t.accepts(a) {
+                Some(true) => {}
+                Some(false) => return Err("type"),
+                None => return Err("unconstrained"),
+            }
+        }
+        return Ok(());
+    }
     let (_, params, variadic) = signature(k);
     let n = params.len();
     let arity_ok = if variadic.is_some() { args.len() >= n } else { args.len() == n };
@@ -87,7 +190,10 @@ fn model_signature(k: usize, args: &[Arg]) -> Result<(), &'static str> {
     Ok(())
 }
 
-const ARG_TEXTS: [&str; 8] = ["@", "`1`", "'s'", "`[1, 2]`", "`{\"a\": 1}`", "&@", "`-2.5`", "a"];
+const ARG_TEXTS: [&str; 20] = [
+    "@", "`1`", "'s'", "`[1, 2]`", "`{\"a\": 1}`", "&@", "`-2.5`", "a", "`[[1], [2, 3]]`", "`[[1], [\"a\"]]`", "`[[\"a\"], [1]]`", "`[\"x\", [1], \"y\"]`",
+    "`[[1], \"x\", [\"y\"]]`", "`true`", "`null`", "`[{}, {\"a\": 1}]`", "`[{}, 1]`", "`[]`", "`[[true], [false, true]]`", "`[[true], [1]]`",
+];
 
 fn arg_value(text: &str, doc: &Value, strict: &Opts, ev: &Evaluator) -> Arg {
     if let Some(e) = text.strip_prefix('&') {
@@ -121,7 +227,7 @@ pub fn run(args: &Args) {
                 3 | 4 => {
                     let id = next_id;
                     next_id += 1;
-                    let k = rng.below(4);
+                    let k = rng.below(10);
                     rt.register_function(name, Box::new(CustomFunction::new(signature(k).0, recorder(id, false))));
                     model.insert(name.to_string(), Entry::Signed(id, k));
                     trace.push(format!("register_signed({}, #{}, sig{})", name, id, k));
@@ -156,7 +262,7 @@ pub fn run(args: &Args) {
                 if present != model.contains_key(*probe) {
                     rep.violation("C15/get_function-disagrees-with-history", json!({"history": trace, "name": probe, "get_function_is_some": present}));
                 }
-                let nargs = rng.below(4);
+                let nargs = rng.below(5);
                 let texts: Vec<&str> = (0..nargs).map(|_| ARG_TEXTS[rng.below(ARG_TEXTS.len())]).collect();
                 let wrap = rng.below(3);
                 let call = format!("{}({})", probe, texts.join(", "));
@@ -179,6 +285,7 @@ pub fn run(args: &Args) {
                     Some(Entry::Plain(id)) => Pred::Called(*id),
                     Some(Entry::Signed(id, k)) => match model_signature(*k, &ref_args) {
                         Ok(()) => Pred::Called(*id),
+                        Err("unconstrained") => Pred::Skip,
                         Err(c) => Pred::Err(c),
                     },
                     Some(Entry::Builtin) => match ev.call_builtin(probe, &ref_args, 0) {
@@ -266,6 +373,9 @@ pub fn run(args: &Args) {
         }
         // argument order / laziness with recording functions used as arguments
         order_probe(&mut rep, &mut rng, &mut next_id);
+        for _ in 0..4 {
+            projection_probe(&mut rep, &mut rng, &mut next_id, &ev, &strict);
+        }
     }
     emit_report(args, &rep);
 }
@@ -321,6 +431,62 @@ fn order_probe(rep: &mut Report, rng: &mut Rng, next_id: &mut u64) {
         rep.violation(
             "C15/argument-evaluation-order-or-laziness",
             json!({"expression": text, "expected_call_log": format!("{:?}", expected), "observed_call_log": format!("{:?}", log)}),
+        );
+    }
+}
+
+/// A recording function called as the right-hand side of a projection whose
+/// elements include nulls: every argument must be evaluated against the element.
+fn projection_probe(rep: &mut Report, rng: &mut Rng, next_id: &mut u64, ev: &Evaluator, strict: &Opts) {
+    const ARGS: [&str; 14] = ["@", "v", "[`1`, `2`]", "{a: `1`}", "!@", "@ == `1`", "`1` || @", "[@, `0`]", "`\"lit\"`", "!`null`", "[`1`] == [`1`]", "{k: @}", "`0` && `1`", "&v"];
+    let mut rt = Runtime::new();
+    rt.register_builtin_functions();
+    *next_id += 1;
+    let id = *next_id;
+    rt.register_function("rec", Box::new(recorder(id, false)));
+    let elems = [json!(1), Value::Null, json!({"v": 3}), json!([]), Value::Null, json!("s"), json!({"v": null})];
+    let n = rng.below(5) + 2;
+    let xs: Vec<Value> = (0..n).map(|_| elems[rng.below(elems.len())].clone()).collect();
+    let nargs = rng.below(3) + 1;
+    let texts: Vec<&str> = (0..nargs).map(|_| ARGS[rng.below(ARGS.len())]).collect();
+    let (proj, items): (&str, Vec<Value>) = match rng.below(3) {
+        0 => ("xs[*]", xs.clone()),
+        1 => (
+            "xs[]",
+            xs.iter()
+                .flat_map(|e| match e {
+                    Value::Array(inner) => inner.clone(),
+                    other => vec![other.clone()],
+                })
+                .collect(),
+        ),
+        _ => ("xs[0:]", xs.clone()),
+    };
+    let text = format!("{}.rec({})", proj, texts.join(", "));
+    let doc = json!({ "xs": xs });
+    // expected log: one invocation per element (nulls included: the call is evaluated on null), in order
+    let mut expected: Vec<Vec<String>> = vec![];
+    for e in &items {
+        let mut args = vec![];
+        for t in &texts {
+            match arg_value(t, e, strict, ev) {
+                Arg::Val(v) => args.push(format!("VAL:{}", rcvar_of(&v))),
+                Arg::Expref(p) => args.push(format!("EXPREF:{}", refimpl::nf::canon(&p))),
+            }
+        }
+        expected.push(args);
+    }
+    rep.evaluations += 1;
+    LOG.with(|l| l.borrow_mut().clear());
+    let got = guarded(|| rt.compile(&text).and_then(|e| e.search(rcvar_of(&doc))));
+    let log: Vec<Vec<String>> = LOG.with(|l| l.borrow().iter().map(|r| r.args.clone()).collect());
+    if got.is_ok() && log == expected {
+        rep.count("projection_call_arguments_per_element_ok");
+        rep.nontrivial(fnv(format!("{}|{}", text, doc).as_bytes()));
+    } else {
+        rep.violation(
+            "C15/arguments-not-evaluated-against-the-current-element",
+            json!({"expression": text, "document": doc, "expected_call_log": format!("{:?}", expected), "observed_call_log": format!("{:?}", log)}),
         );
     }
 }
